@@ -182,3 +182,5 @@ package retry
 //@ spec func tiflashBusyKind() string { return BoTiFlashServerBusy.name }
 //@ spec func maxTsKind() string { return BoMaxTsNotSynced.name }
 //@ spec func notInitKind() string { return BoMaxRegionNotInitialized.name }
+//@ spec func tikvRPCKind() string { return BoTiKVRPC.name }
+//@ spec func tiflashRPCKind() string { return BoTiFlashRPC.name }
